@@ -2881,11 +2881,17 @@ class FuncParseDate(ValueFunc):
                 idx = fmt.find(part)
                 if idx == -1:
                     continue
-                vals[part] = int(s[idx:idx+len(part)])
+                try:
+                    vals[part] = int(s[idx:idx+len(part)])
+                except ValueError:
+                    vals = None
+                    break
                 s = s[0:idx] + s[idx+len(part):]
                 fmt = fmt[0:idx] + fmt[idx+len(part):]
                 if s == "":
                     break
+            if vals is None:
+                continue
             if (
                 fmt.find("y") == -1
                 and fmt.find("M") == -1
